@@ -4,6 +4,10 @@
   (b) `x = x <op> e`                   ->  `x <op>= e`                 (x a name / attribute chain, e free of side conditions on x)
   (c) local variable names             ->  the names the rules were written against, aligned by binding order
                                            (vt/ref_locals.json: per function the locals of the reference tree in order of first binding)
+  (d) `b == a` / `b != a`              ->  `a == b` when the reference tree writes that comparison as `a == b`  (ref_locals.json, "=="-lists)
+  (e) `range(n)`                       ->  `range(0, n)`
+  (f) a *new* local (not in the reference list) that is assigned once and used once, in the very next statement, is substituted
+      into that statement (undoes "introduce a temporary")
 
 (c) is a pure renaming: it is applied only when it is capture-free (the reference name is not otherwise used in the function).
 The rules therefore see the same program whether a developer renamed `index` to `pos`, rewrote `x += 1` as `x = x + 1` or swapped
@@ -36,7 +40,17 @@ def _same(a: ast.AST, b: ast.AST) -> bool:
     return ast.dump(a) == ast.dump(b).replace("Store()", "Load()") or ast.dump(a).replace("Store()", "Load()") == ast.dump(b).replace("Store()", "Load()")
 
 
+def _cmp_key(l: ast.AST, r: ast.AST) -> str:
+    return ast.dump(l) + " || " + ast.dump(r)
+
+
 class _Canon(ast.NodeTransformer):
+    def visit_Call(self, node: ast.Call):
+        self.generic_visit(node)
+        if isinstance(node.func, ast.Name) and node.func.id == "range" and len(node.args) == 1 and not node.keywords:
+            node.args = [ast.copy_location(ast.Constant(0), node.args[0]), node.args[0]]
+        return node
+
     def visit_If(self, node: ast.If):
         self.generic_visit(node)
         t = node.test
@@ -100,6 +114,66 @@ def all_names(fn: ast.FunctionDef) -> set:
     return {n.id for n in ast.walk(fn) if isinstance(n, ast.Name)} | {a.arg for a in ast.walk(fn) if isinstance(a, ast.arg)}
 
 
+def _inline_new_temps(fn: ast.FunctionDef, want: List[str]) -> None:
+    """(f): new single-use temporaries consumed by the next statement are substituted back."""
+    changed = True
+    rounds = 0
+    while changed and rounds < 8:
+        changed = False
+        rounds += 1
+        counts_store: Dict[str, int] = {}
+        counts_load: Dict[str, int] = {}
+        for n in ast.walk(fn):
+            if isinstance(n, ast.Name):
+                if isinstance(n.ctx, ast.Store):
+                    counts_store[n.id] = counts_store.get(n.id, 0) + 1
+                else:
+                    counts_load[n.id] = counts_load.get(n.id, 0) + 1
+        for parent_node in ast.walk(fn):
+            for fld in ("body", "orelse", "finalbody"):
+                lst = getattr(parent_node, fld, None)
+                if not isinstance(lst, list):
+                    continue
+                for i, st in enumerate(lst[:-1]):
+                    if isinstance(st, ast.Assign) and len(st.targets) == 1 and isinstance(st.targets[0], ast.Name):
+                        nm = st.targets[0].id
+                        if nm in want or counts_store.get(nm) != 1 or counts_load.get(nm) != 1:
+                            continue
+                        nxt = lst[i + 1]
+                        uses = [x for x in ast.walk(nxt) if isinstance(x, ast.Name) and x.id == nm and isinstance(x.ctx, ast.Load)]
+                        if len(uses) != 1:
+                            continue
+                        # do not substitute into nested statement bodies of compound statements (only header expressions / simple statements)
+                        if isinstance(nxt, (ast.For, ast.While, ast.If, ast.With, ast.Try, ast.FunctionDef, ast.ClassDef, ast.Match)):
+                            hdr = getattr(nxt, "test", None) or getattr(nxt, "iter", None)
+                            if hdr is None or not any(x is uses[0] for x in ast.walk(hdr)):
+                                continue
+                        val = st.value
+
+                        class Sub(ast.NodeTransformer):
+                            def visit_Name(self, node):
+                                if node is uses[0]:
+                                    return val
+                                return node
+                        lst[i + 1] = Sub().visit(nxt)
+                        del lst[i]
+                        changed = True
+                        break
+                if changed:
+                    break
+            if changed:
+                break
+
+
+def _orient_compares(fn: ast.FunctionDef, ref_cmp: List[str]) -> None:
+    refset = set(ref_cmp)
+    for n in ast.walk(fn):
+        if isinstance(n, ast.Compare) and len(n.ops) == 1 and isinstance(n.ops[0], (ast.Eq, ast.NotEq)):
+            l, r = n.left, n.comparators[0]
+            if _cmp_key(l, r) not in refset and _cmp_key(r, l) in refset:
+                n.left, n.comparators[0] = r, l
+
+
 def normalise_locals(relpath: str, tree: ast.Module) -> int:
     ref = _ref()
     done = 0
@@ -113,6 +187,7 @@ def normalise_locals(relpath: str, tree: ast.Module) -> int:
                 key = f"{relpath}::{prefix}{st.name}"
                 want = ref.get(key)
                 if want is not None:
+                    _inline_new_temps(st, want)
                     have = binding_order(st)
                     if have != want:
                         mapping = {}
@@ -130,6 +205,9 @@ def normalise_locals(relpath: str, tree: ast.Module) -> int:
                         if safe:
                             _rename(st, safe)
                             done += 1
+                rc = ref.get(key + "::==")
+                if rc:
+                    _orient_compares(st, rc)
             elif isinstance(st, (ast.With, ast.Try, ast.If)):
                 visit(st.body, prefix)
     visit(tree.body, "")
@@ -162,8 +240,11 @@ def build_reference(root: str) -> Dict[str, List[str]]:
                         visit(st.body, prefix + st.name + ".")
                     elif isinstance(st, ast.FunctionDef):
                         names = binding_order(st)
-                        if names:
-                            out[f"{rel}::{prefix}{st.name}"] = names
+                        out[f"{rel}::{prefix}{st.name}"] = names
+                        cmps = sorted({_cmp_key(n.left, n.comparators[0]) for n in ast.walk(st)
+                                       if isinstance(n, ast.Compare) and len(n.ops) == 1 and isinstance(n.ops[0], (ast.Eq, ast.NotEq))})
+                        if cmps:
+                            out[f"{rel}::{prefix}{st.name}::=="] = cmps
                     elif isinstance(st, (ast.With, ast.Try, ast.If)):
                         visit(st.body, prefix)
             visit(t.body, "")
